@@ -400,6 +400,24 @@ def check(prog: Program, res: Result, tier: str) -> None:
                 elif verdict is None:
                     uses = any(isinstance(x, ast.Name) and x.id == "index_base" for x in ast.walk(isa.resolve(n.value)))
                     verdict = ("BAD", "index_base is not subtracted from the stored subscripts", n) if not uses else ("UNDEC", "", n)
+    # the name that is subtracted must still be the caller's value: a re-binding of the parameter before the loop
+    # (`index_base = index_base or 1`, a conditional default) replaces a falsy base (0) by another one
+    for fn_i, short in ((isa, "import_data.import_sparse_array"), (imp, "import_data.import_data")):
+        for n in ast.walk(fn_i.node):
+            tgt = None
+            if isinstance(n, ast.Assign) and len(n.targets) == 1:
+                tgt, val = n.targets[0], n.value
+            elif isinstance(n, (ast.AnnAssign, ast.AugAssign)) and n.value is not None:
+                tgt, val = n.target, n.value
+            if isinstance(tgt, ast.Name) and tgt.id == "index_base":
+                if not isinstance(n, ast.AugAssign) and (isinstance(val, (ast.BoolOp, ast.IfExp)) and any(
+                        isinstance(x, ast.Name) and x.id == "index_base" for x in ast.walk(val))):
+                    res.bad("IO-base", short, "the index base given by the caller is used as given", prog.loc(fn_i, n),
+                            f"`{ast.unparse(n)}` re-binds the parameter: a falsy base (index_base=0) is replaced by another value, "
+                            "so 0-based files are shifted")
+                else:
+                    res.undecided("IO-base", short, "the index base given by the caller is used as given", prog.loc(fn_i, n),
+                                  f"`{ast.unparse(n)}` re-binds the parameter")
     if verdict is None:
         res.undecided("IO-base", "import_data.import_sparse_array", desc, prog.loc(isa), "no store into subs found")
     elif verdict[0] == "OK":
